@@ -23,7 +23,21 @@ impl HLruSubj {
 
 impl Subject for HLruSubj {
     fn apply(&mut self, op: &[i128]) -> Ints {
-        self.inner.apply(op)
+        let r = self.inner.apply(op);
+        if op[0] == 25 {
+            // x = x.clone(): the model allocates the clone's two sentinels, then one node per entry in the
+            // order Clone inserts them (least recent first); every old node is gone
+            let a = self.inner.c.verif_audit();
+            let mut st = self.names.borrow_mut();
+            st.0.clear();
+            st.1 += 2;
+            for (addr, _, _, _) in a.fwd.iter().rev() {
+                let n = st.1;
+                st.1 += 1;
+                st.0.insert(*addr, n);
+            }
+        }
+        r
     }
     fn snapshot(&self) -> Ints {
         let c = &self.inner.c;
@@ -95,7 +109,12 @@ impl HSlruSubj {
 
 impl Subject for HSlruSubj {
     fn apply(&mut self, op: &[i128]) -> Ints {
-        self.inner.apply(op)
+        let r = self.inner.apply(op);
+        if op[0] == 25 {
+            let (prob, prot) = self.inner.c.verif_parts();
+            rename_after_clone(&self.names, &[prob, prot]);
+        }
+        r
     }
     fn snapshot(&self) -> Ints {
         let (prob, prot) = self.inner.c.verif_parts();
@@ -155,4 +174,165 @@ pub fn slru_resident(snap: &Ints) -> Vec<u64> {
         i += 3 * n + n;
     }
     out
+}
+
+
+// ---------------------------------------------------------------------------------------------
+// kinds 12, 13, 14: TwoQueueCache, AdaptiveCache, WTinyLFUCache at the level of node addresses
+
+type InnerList = RawLRU<TKey, TVal, caches::DefaultEvictCallback, VHasher>;
+
+/// `x = x.clone()`: the model allocates, list by list in the order `Clone` copies them, two sentinels and then
+/// one node per entry in insertion order (least recent first); every node of the original is gone
+fn rename_after_clone(names: &RefCell<(HashMap<usize, i128>, i128)>, lists: &[&InnerList]) {
+    let mut st = names.borrow_mut();
+    st.0.clear();
+    for l in lists {
+        let a = l.verif_audit();
+        st.1 += 2;
+        for (addr, _, _, _) in a.fwd.iter().rev() {
+            let n = st.1;
+            st.1 += 1;
+            st.0.insert(*addr, n);
+        }
+    }
+}
+
+/// names (global across the lists, first appearance in the given list order), then per list
+/// `n (k v name)*n` and the n index names in increasing order; returns whether every list passed its audit
+fn named_lists(names: &RefCell<(HashMap<usize, i128>, i128)>, lists: &[&InnerList], out: &mut Ints) -> bool {
+    let mut ok = true;
+    for l in lists {
+        ok &= audit(*l).0;
+    }
+    let audits: Vec<_> = lists.iter().map(|l| l.verif_audit()).collect();
+    let mut st = names.borrow_mut();
+    let (old, mut next) = (std::mem::take(&mut st.0), st.1);
+    let mut now: HashMap<usize, i128> = HashMap::new();
+    for a in audits.iter() {
+        for (addr, _, _, _) in a.fwd.iter() {
+            let name = match old.get(addr) {
+                Some(n) => *n,
+                None => {
+                    let n = next;
+                    next += 1;
+                    n
+                }
+            };
+            now.insert(*addr, name);
+        }
+    }
+    for a in audits.iter() {
+        out.push(a.fwd.len() as i128);
+        for (addr, _, k, v) in a.fwd.iter() {
+            out.push(k.id as i128);
+            out.push(v.v as i128);
+            out.push(*now.get(addr).unwrap());
+        }
+        let mut idx: Vec<i128> = a.index.iter().map(|(_, n)| *now.get(n).unwrap_or(&-1)).collect();
+        idx.sort_unstable();
+        out.extend(idx);
+    }
+    *st = (now, next);
+    ok
+}
+
+/// resident keys of a snapshot made of `hdr` header numbers and `nlists` named lists
+pub fn named_resident(snap: &Ints, hdr: usize, nlists: usize) -> Vec<u64> {
+    let mut out = Vec::new();
+    let mut i = hdr;
+    for _ in 0..nlists {
+        if i >= snap.len() {
+            break;
+        }
+        let n = snap[i] as usize;
+        i += 1;
+        for j in 0..n {
+            if i + 3 * j < snap.len() {
+                out.push(snap[i + 3 * j] as u64);
+            }
+        }
+        i += 3 * n + n;
+    }
+    out
+}
+
+pub struct HTwoQSubj {
+    pub inner: crate::comp::TwoQSubj,
+    names: RefCell<(HashMap<usize, i128>, i128)>,
+}
+impl HTwoQSubj {
+    pub fn new(inner: crate::comp::TwoQSubj) -> Self {
+        HTwoQSubj { inner, names: RefCell::new((HashMap::new(), 6)) }
+    }
+}
+impl Subject for HTwoQSubj {
+    fn apply(&mut self, op: &[i128]) -> Ints {
+        self.inner.apply(op)
+    }
+    fn snapshot(&self) -> Ints {
+        let (r, f, g, rs) = self.inner.c.verif_parts();
+        let mut out = vec![self.inner.c.cap() as i128, rs as i128, g.cap() as i128];
+        let ok = named_lists(&self.names, &[r, f, g], &mut out);
+        let caps = r.cap() == self.inner.c.cap() && f.cap() == self.inner.c.cap();
+        out.push((ok && caps) as i128);
+        out
+    }
+}
+
+pub struct HArcSubj {
+    pub inner: crate::comp::ArcSubj,
+    names: RefCell<(HashMap<usize, i128>, i128)>,
+}
+impl HArcSubj {
+    pub fn new(inner: crate::comp::ArcSubj) -> Self {
+        HArcSubj { inner, names: RefCell::new((HashMap::new(), 8)) }
+    }
+}
+impl Subject for HArcSubj {
+    fn apply(&mut self, op: &[i128]) -> Ints {
+        self.inner.apply(op)
+    }
+    fn snapshot(&self) -> Ints {
+        let (t1, b1, t2, b2) = self.inner.c.verif_parts();
+        let mut out = vec![self.inner.c.cap() as i128, self.inner.c.partition() as i128];
+        let ok = named_lists(&self.names, &[t1, b1, t2, b2], &mut out);
+        let n = self.inner.c.cap();
+        let caps = t1.cap() == n && b1.cap() == n && t2.cap() == n && b2.cap() == n;
+        out.push((ok && caps) as i128);
+        out
+    }
+}
+
+pub struct HWTinySubj {
+    pub inner: crate::lfu::WTinySubj,
+    names: RefCell<(HashMap<usize, i128>, i128)>,
+}
+impl HWTinySubj {
+    pub fn new(inner: crate::lfu::WTinySubj) -> Self {
+        HWTinySubj { inner, names: RefCell::new((HashMap::new(), 6)) }
+    }
+}
+impl Subject for HWTinySubj {
+    fn apply(&mut self, op: &[i128]) -> Ints {
+        let r = self.inner.apply(op);
+        if op[0] == 25 {
+            let (_, w, m) = self.inner.c.verif_parts();
+            let (prob, prot) = m.verif_parts();
+            rename_after_clone(&self.names, &[w, prob, prot]);
+        }
+        r
+    }
+    fn snapshot(&self) -> Ints {
+        let (t, w, m) = self.inner.c.verif_parts();
+        let (prob, prot) = m.verif_parts();
+        let mut out = vec![w.cap() as i128, prob.cap() as i128, prot.cap() as i128];
+        let ok = named_lists(&self.names, &[w, prob, prot], &mut out);
+        out.push(ok as i128);
+        crate::lfu::tiny_snapshot(&t.verif_state(), &mut out);
+        out
+    }
+    fn cfg_override(&self) -> Option<Ints> {
+        self.inner.cfg_override()
+    }
 }
